@@ -210,3 +210,154 @@ def compare_env(classify: Callable[[ast.Compare], Optional[bool]]) -> Callable[[
         return None
 
     return env
+
+
+# ------------------------------------------------------- integer-state CFG runs
+class Run:
+    """One abstract execution: integer variables are concrete, everything else is an event."""
+
+    def __init__(self) -> None:
+        self.events: List[Tuple[str, int]] = []  # (event name, line)
+        self.end = ""  # return | raise:<Class> | stuck | budget
+        self.raised: Optional[ast.AST] = None
+
+
+def run_int_cfg(
+    ctx: Ctx,
+    fn: FuncInfo,
+    init: Dict[str, int],
+    event_of: Callable[[Node], Optional[str]],
+    raises_at: Callable[[Node, int], Optional[ast.expr]],
+    max_steps: int = 300,
+    decide: Optional[Callable[[ast.expr], Optional[bool]]] = None,
+) -> Run:
+    """
+    Deterministic walk of *fn*'s CFG with a concrete integer state.
+
+    event_of(node)      -> name of an observable event at this node (recorded)
+    raises_at(node, k)  -> exception class expression raised by the k-th visit of
+                           this node (None = the statement completes normally)
+    Tests that the integer interpreter cannot decide end the run as 'stuck'.
+    """
+    from .exprs import Unevaluable, int_eval
+
+    cfg = ctx.cfg(fn)
+    state = dict(init)
+    run = Run()
+    visits: Dict[int, int] = {}
+    node = cfg.entry
+    pending_exc: Optional[ast.expr] = None
+
+    def atoms(expr: ast.AST):
+        if isinstance(expr, ast.Name) and expr.id in state:
+            return state[expr.id]
+        return None
+
+    for _ in range(max_steps):
+        if node.id == cfg.exit.id:
+            run.end = "return"
+            return run
+        if node.id == cfg.raise_exit.id:
+            run.end = "raise:" + (norm(pending_exc) if pending_exc is not None else "?")
+            run.raised = pending_exc
+            return run
+        visits[node.id] = visits.get(node.id, 0) + 1
+        ev = event_of(node)
+        if ev:
+            run.events.append((ev, node.lineno))
+        exc = raises_at(node, visits[node.id])
+        if exc is not None:
+            pending_exc = exc
+            target = None
+            for tr, part in enclosing_tries_of(node, fn):
+                if part != "body":
+                    continue
+                for h in tr.handlers:
+                    if ctx.exc_matches(fn, exc, h.type):
+                        target = cfg.node_of(h)
+                        break
+                if target is not None:
+                    break
+            node = target or cfg.raise_exit
+            continue
+        stmt = node.ast
+        if node.kind == "test":
+            pre = decide(stmt) if decide is not None else None
+            if pre is not None:
+                val = pre
+            else:
+                try:
+                    val = bool(int_eval(stmt, atoms))
+                except Unevaluable:
+                    run.end = "stuck:" + norm(stmt)
+                    return run
+            nxt = [n for n, lab in cfg.succ[node.id] if lab == val]
+            if not nxt:
+                run.end = "stuck"
+                return run
+            node = cfg.nodes[nxt[0]]
+            continue
+        if isinstance(stmt, ast.AugAssign) and isinstance(stmt.target, ast.Name) and stmt.target.id in state:
+            try:
+                rhs = int_eval(stmt.value, atoms)
+                cur = state[stmt.target.id]
+                state[stmt.target.id] = cur + rhs if isinstance(stmt.op, ast.Add) else cur - rhs if isinstance(stmt.op, ast.Sub) else cur
+                if not isinstance(stmt.op, (ast.Add, ast.Sub)):
+                    raise Unevaluable("op")
+            except Unevaluable:
+                state.pop(stmt.target.id, None)
+        elif isinstance(stmt, ast.Assign) and len(stmt.targets) == 1 and isinstance(stmt.targets[0], ast.Name) and stmt.targets[0].id in state:
+            try:
+                state[stmt.targets[0].id] = int_eval(stmt.value, atoms)
+            except Unevaluable:
+                state.pop(stmt.targets[0].id, None)
+        if isinstance(stmt, ast.Raise):
+            exc_expr = stmt.exc
+            if exc_expr is None:
+                exc_expr = pending_exc  # bare re-raise
+            pending_exc = exc_expr
+            # find the handler: use CFG edge for explicit raises (already matched by class)
+            succ = cfg.succ[node.id]
+            if stmt.exc is None:
+                # re-raise out of the handler: leaves the enclosing try of the handler
+                node = cfg.raise_exit
+                for tr, part in enclosing_tries_of(node_stmt_anchor(stmt), fn):
+                    if part == "body":
+                        for h in tr.handlers:
+                            if exc_expr is not None and ctx.exc_matches(fn, exc_expr, h.type):
+                                node = cfg.node_of(h) or cfg.raise_exit
+                                break
+                continue
+            node = cfg.nodes[succ[0][0]] if succ else cfg.raise_exit
+            continue
+        succ = [(n, lab) for n, lab in cfg.succ[node.id] if lab != "exc"]
+        if node.kind == "iter":
+            run.end = "stuck:for-loop"
+            return run
+        if not succ:
+            run.end = "stuck"
+            return run
+        node = cfg.nodes[succ[0][0]]
+    run.end = "budget"
+    return run
+
+
+def node_stmt_anchor(stmt: ast.AST) -> ast.AST:
+    """For a statement inside an except handler: the enclosing Try (so that outer tries are searched)."""
+    from .universe import parent_of
+
+    cur: Optional[ast.AST] = stmt
+    while cur is not None and not isinstance(cur, ast.ExceptHandler):
+        cur = parent_of(cur)
+    if cur is None:
+        return stmt
+    return parent_of(cur) or stmt
+
+
+def enclosing_tries_of(node_or_ast, fn: FuncInfo):
+    from .cfg import enclosing_tries
+
+    target = node_or_ast.ast if isinstance(node_or_ast, Node) else node_or_ast
+    if target is None:
+        return []
+    return enclosing_tries(target, fn.node)
